@@ -7,13 +7,24 @@ OK == [ok |-> TRUE, sig |-> ""]
 Bad(s) == [ok |-> FALSE, sig |-> s]
 Whole(r) == r.layout = "L5" /\ r.flatlen = 5 * r.nfix
 YearClass(ls) == IF \E i \in DOMAIN ls : ls[i].k = "HDTE" /\ ls[i].yy >= 70 THEN "|year70-99" ELSE ""
+\* For an arbitrary record sequence the property demands totality and whole fixes; how many records are reported as
+\* errors, and whether a malformed record still yields a fix, is left to the implementation (a more lenient or a
+\* stricter decoder is not an alarm).  Counts and instants are fixed only for sequences of the kind the encoder
+\* writes - an A record, valid date headers, plain 35-column B records, every fix after a date header.
+StdLine(l) == \/ l.k = "A"
+              \/ (l.k = "HDTE" /\ ~l.short /\ l.dd \in 1..31 /\ l.mm \in 1..12)
+              \/ (l.k = "B" /\ l.len = 35 /\ l.ok)
+StdLines(c) == /\ Len(c.lines) > 0 /\ c.lines[1].k = "A"
+               /\ \A i \in DOMAIN c.lines : StdLine(c.lines[i])
+               /\ \A i \in DOMAIN c.fixes : c.fixes[i][3] = 1
 VLines(r) ==
   LET c == r.case IN
   IF r.ev # "ok" THEN Bad("igc|decode|" \o r.ev)
   ELSE IF ~Whole(r) THEN Bad("igc|decode|not-whole-fixes")
+  ELSE IF ~StdLines(c) THEN OK
   ELSE IF r.nfix # c.nfix THEN Bad("igc|decode|fix-count")
   ELSE IF r.nerr # c.nerr THEN Bad("igc|decode|error-count")
-  ELSE IF \E i \in DOMAIN c.fixes : c.fixes[i][3] = 1 /\ r.times[i] # <<c.fixes[i][1], c.fixes[i][2]>> THEN Bad("igc|decode|timestamp" \o YearClass(c.lines))
+  ELSE IF \E i \in DOMAIN c.fixes : r.times[i] # <<c.fixes[i][1], c.fixes[i][2]>> THEN Bad("igc|decode|timestamp" \o YearClass(c.lines))
   ELSE OK
 PoleClass(tr) == IF \E i \in DOMAIN tr : Abs(tr[i].latq) = 90 * 6000000 \/ Abs(tr[i].lonq) = 180 * 6000000 THEN "|pole-or-antimeridian" ELSE ""
 Year2(tr) == IF \E i \in DOMAIN tr : tr[i].t[1] < DaysFromCivil(2000, 1, 1) THEN "|19yy" ELSE ""
